@@ -1,6 +1,314 @@
-From Coq Require Import List NArith.
+(* C39 — identifiers and metadata serialise and parse losslessly.
+   "Digests, info hashes, peer ids, piece-status vectors, access times, persist flags, handshake
+    bitfields and digest lists parse back to exactly what was printed or serialized, and parsing
+    accepts only well-formed input (a digest is 'sha256:' followed by 64 hexadecimal characters)."
+   Statements only; every proof is `exact <lemma from Proof/C39*.v>`.
+   For each type: X_roundtrip (print then parse = identity, for ALL values of the type),
+   X_accepts* (exactly the well-formed texts are accepted / the accepted value is well-formed),
+   X_parse_print (printing an accepted value parses to the same value). *)
+From Coq Require Import List NArith ZArith Bool.
 From K.Model Require Import C39.
-From K.Proof Require C39.
-Theorem C39_placeholder : True.
-Proof. exact Proof.C39.placeholder. Qed.
-Print Assumptions C39_placeholder.
+From K.Proof Require C39_hex C39_digest C39_meta C39_bits C39_hs C39.
+Import ListNotations.
+Local Open Scope N_scope.
+
+(* ---------------- hexadecimal text (shared by digests, info hashes, peer ids) ---------------- *)
+
+Theorem C39_hex_roundtrip : forall b, Forall (fun x => x < 256) b -> hex_decode (hex_encode b) = Some b.
+Proof. exact Proof.C39_hex.hex_roundtrip. Qed.
+Print Assumptions C39_hex_roundtrip.
+
+Theorem C39_hex_accepts_wellformed_only : forall s,
+  (exists b, hex_decode s = Some b) <-> (Nat.even (length s) = true /\ forallb is_hex s = true).
+Proof. exact Proof.C39_hex.hex_decode_accepts. Qed.
+Print Assumptions C39_hex_accepts_wellformed_only.
+
+Theorem C39_hex_parse_print : forall s b, hex_decode s = Some b ->
+  length s = (2 * length b)%nat /\ Forall (fun x => x < 256) b /\ forallb is_hex s = true
+  /\ hex_encode b = map lower s.
+Proof. exact Proof.C39_hex.hex_decode_sound. Qed.
+Print Assumptions C39_hex_parse_print.
+
+(* ---------------- digests: ParseSHA256Digest / String ---------------- *)
+
+(* accepted <-> 'sha256:' followed by 64 hexadecimal characters; the digest keeps the text *)
+Theorem C39_digest_wellformed : forall raw d,
+  digest_parse raw = Ok d <-> (digest_text_wfb raw = true /\ d = mkd sha256_str (skipn 7 raw) raw).
+Proof. exact Proof.C39_digest.digest_parse_iff. Qed.
+Print Assumptions C39_digest_wellformed.
+
+(* ... where the boolean predicate means literally what the property says *)
+Theorem C39_digest_wellformed_meaning : forall raw,
+  digest_text_wfb raw = true <->
+  exists h, raw = sha256_str ++ colon :: h /\ length h = 64%nat /\ Forall (fun c => is_hex c = true) h.
+Proof. exact Proof.C39_digest.digest_text_wfb_spec. Qed.
+Print Assumptions C39_digest_wellformed_meaning.
+
+Theorem C39_digest_roundtrip : forall d, dg_wfb d = true -> digest_parse (digest_string d) = Ok d.
+Proof. exact Proof.C39_digest.digest_roundtrip. Qed.
+Print Assumptions C39_digest_roundtrip.
+
+(* dg_wfb is exactly "built by one of the two constructors" *)
+Theorem C39_digest_values_parse : forall raw d, digest_parse raw = Ok d -> dg_wfb d = true /\ digest_string d = raw.
+Proof. exact Proof.C39_digest.digest_parse_wf. Qed.
+Print Assumptions C39_digest_values_parse.
+Theorem C39_digest_values_from_hex : forall h d, digest_from_hex h = Ok d -> dg_wfb d = true /\ d_hex d = h.
+Proof. exact Proof.C39_digest.digest_from_hex_wf. Qed.
+Print Assumptions C39_digest_values_from_hex.
+
+(* NewSHA256DigestFromHex / Hex *)
+Theorem C39_digest_hex_wellformed : forall h d,
+  digest_from_hex h = Ok d <-> (id_text_wfb 64 h = true /\ d = mkd sha256_str h (sha256_str ++ colon :: h)).
+Proof. exact Proof.C39_digest.digest_from_hex_iff. Qed.
+Print Assumptions C39_digest_hex_wellformed.
+Theorem C39_digest_hex_roundtrip : forall d, dg_wfb d = true -> digest_from_hex (d_hex d) = Ok d.
+Proof. exact Proof.C39_digest.digest_hex_roundtrip. Qed.
+Print Assumptions C39_digest_hex_roundtrip.
+
+(* JSON form: Digest.Value / Digest.Scan *)
+Theorem C39_digest_json_roundtrip : forall d, dg_wfb d = true -> digest_json_parse (digest_json_print d) = Ok d.
+Proof. exact Proof.C39_digest.digest_json_roundtrip. Qed.
+Print Assumptions C39_digest_json_roundtrip.
+Theorem C39_digest_json_accepts_wellformed_only : forall s d, digest_json_parse s = Ok d -> dg_wfb d = true.
+Proof. exact Proof.C39_digest.digest_json_accepts_wf_only. Qed.
+Print Assumptions C39_digest_json_accepts_wellformed_only.
+
+(* ---------------- digest lists: DigestList.Value / DigestList.Scan ---------------- *)
+
+Theorem C39_digestlist_roundtrip : forall l,
+  match l with Some l' => forallb dg_wfb l' = true | None => True end ->
+  dl_parse (dl_print l) = Ok l.
+Proof. exact Proof.C39_digest.digestlist_roundtrip. Qed.
+Print Assumptions C39_digestlist_roundtrip.
+Theorem C39_digestlist_accepts_wellformed_only : forall s l, dl_parse s = Ok l ->
+  match l with Some l' => forallb dg_wfb l' = true | None => True end.
+Proof. exact Proof.C39_digest.digestlist_accepts_wf_only. Qed.
+Print Assumptions C39_digestlist_accepts_wellformed_only.
+Theorem C39_digestlist_parse_print : forall s l, dl_parse s = Ok l -> dl_parse (dl_print l) = Ok l.
+Proof. exact Proof.C39_digest.digestlist_parse_print. Qed.
+Print Assumptions C39_digestlist_parse_print.
+
+(* ---------------- info hashes and peer ids ---------------- *)
+
+Theorem C39_infohash_roundtrip : forall b, id20_wfb b = true -> infohash_parse (infohash_print b) = Ok b.
+Proof. exact Proof.C39_hex.infohash_roundtrip. Qed.
+Print Assumptions C39_infohash_roundtrip.
+Theorem C39_infohash_accepts_wellformed_only : forall s, (exists b, infohash_parse s = Ok b) <-> id_text_wfb 40 s = true.
+Proof. exact Proof.C39_hex.infohash_accepts. Qed.
+Print Assumptions C39_infohash_accepts_wellformed_only.
+Theorem C39_infohash_parse_print : forall s b, infohash_parse s = Ok b ->
+  id20_wfb b = true /\ infohash_print b = map lower s.
+Proof. exact Proof.C39_hex.infohash_parse_sound. Qed.
+Print Assumptions C39_infohash_parse_print.
+
+Theorem C39_peerid_roundtrip : forall b, id20_wfb b = true -> peerid_parse (peerid_print b) = Ok b.
+Proof. exact Proof.C39_hex.peerid_roundtrip. Qed.
+Print Assumptions C39_peerid_roundtrip.
+Theorem C39_peerid_accepts_wellformed_only : forall s, (exists b, peerid_parse s = Ok b) <-> id_text_wfb 40 s = true.
+Proof. exact Proof.C39_hex.peerid_accepts. Qed.
+Print Assumptions C39_peerid_accepts_wellformed_only.
+Theorem C39_peerid_parse_print : forall s b, peerid_parse s = Ok b ->
+  id20_wfb b = true /\ peerid_print b = map lower s.
+Proof. exact Proof.C39_hex.peerid_parse_sound. Qed.
+Print Assumptions C39_peerid_parse_print.
+
+(* ---------------- piece-status vectors ---------------- *)
+
+(* all vectors over the statuses that are ever persisted (empty, complete) *)
+Theorem C39_status_roundtrip : forall v, forallb status_persistent v = true -> status_parse (status_print v) = v.
+Proof. exact Proof.C39_meta.status_roundtrip. Qed.
+Print Assumptions C39_status_roundtrip.
+(* Deserialize is total and lenient by design: same length, persisted statuses only ... *)
+Theorem C39_status_parse_range : forall b,
+  length (status_parse b) = length b /\ forallb status_persistent (status_parse b) = true.
+Proof. exact Proof.C39_meta.status_parse_range. Qed.
+Print Assumptions C39_status_parse_range.
+(* ... well-formed bytes are kept exactly ... *)
+Theorem C39_status_wellformed_exact : forall b, forallb status_persistent b = true -> status_parse b = b.
+Proof. exact Proof.C39_meta.status_parse_wellformed_exact. Qed.
+Print Assumptions C39_status_wellformed_exact.
+Theorem C39_status_parse_print : forall b, status_parse (status_print (status_parse b)) = status_parse b.
+Proof. exact Proof.C39_meta.status_parse_print. Qed.
+Print Assumptions C39_status_parse_print.
+(* ... and the transient status `dirty` (in-flight write; never serialized by the code) does NOT
+   round-trip: it is read back as empty. Outside the domain of C39_status_roundtrip on purpose. *)
+Theorem C39_status_dirty_refuted : exists v, status_parse (status_print v) <> v.
+Proof. exact Proof.C39_meta.status_dirty_refuted. Qed.
+Print Assumptions C39_status_dirty_refuted.
+
+(* ---------------- last access time (second granularity) ---------------- *)
+
+(* ALL times whose Unix seconds fit int64 (the whole range of time.Time.Unix) — this is the code
+   with fixes/C39_lat_varint_buffer.patch (10-byte buffer) *)
+Theorem C39_lat_roundtrip : forall z, int64b z = true ->
+  exists b, lat_print z = Ok b /\ length b = 10%nat /\ lat_parse b = Ok z.
+Proof. exact Proof.C39_meta.lat_roundtrip. Qed.
+Print Assumptions C39_lat_roundtrip.
+Theorem C39_lat_never_panics : forall z, exists b, lat_print z = Ok b /\ length b = 10%nat.
+Proof. exact Proof.C39_meta.lat_print_total. Qed.
+Print Assumptions C39_lat_never_panics.
+Theorem C39_lat_accepts_wellformed_only : forall b, (exists z, lat_parse b = Ok z) <-> varint_wf_from 0 b = true.
+Proof. exact Proof.C39_meta.lat_accepts_wellformed_only. Qed.
+Print Assumptions C39_lat_accepts_wellformed_only.
+Theorem C39_lat_parse_print : forall b z, lat_parse b = Ok z -> exists p, lat_print z = Ok p /\ lat_parse p = Ok z.
+Proof. exact Proof.C39_meta.lat_parse_print. Qed.
+Print Assumptions C39_lat_parse_print.
+Theorem C39_lat_parse_in_range : forall b z, lat_parse b = Ok z -> int64b z = true.
+Proof. exact Proof.C39_meta.lat_parse_range. Qed.
+Print Assumptions C39_lat_parse_in_range.
+Theorem C39_lat_padding_ignored : forall b t z, lat_parse b = Ok z -> lat_parse (b ++ t) = Ok z.
+Proof. exact Proof.C39_meta.lat_parse_trailing. Qed.
+Print Assumptions C39_lat_padding_ignored.
+
+(* the code as found (8-byte buffer, kept as the mutant model lat_print_prefix): Serialize works
+   exactly for -2^55 <= seconds < 2^55 and panics for every other time *)
+Theorem C39_lat_8byte_domain : forall z, (exists b, lat_print_prefix z = Ok b) <-> (- 2 ^ 55 <= z < 2 ^ 55)%Z.
+Proof. exact Proof.C39_meta.lat_prefix_domain. Qed.
+Print Assumptions C39_lat_8byte_domain.
+Theorem C39_lat_8byte_refuted : exists z, int64b z = true /\ lat_print_prefix z = Panic.
+Proof. exact Proof.C39_meta.lat_prefix_refuted. Qed.
+Print Assumptions C39_lat_8byte_refuted.
+(* the fix is compatible in both directions: old files are read, new files = old bytes + 00 00 *)
+Theorem C39_lat_fix_compatible : forall z b8, lat_print_prefix z = Ok b8 ->
+  lat_parse b8 = Ok z /\ lat_print z = Ok (b8 ++ [0; 0]).
+Proof. exact Proof.C39_meta.lat_prefix_compatible. Qed.
+Print Assumptions C39_lat_fix_compatible.
+
+(* ---------------- persist flag ---------------- *)
+
+Theorem C39_persist_roundtrip : forall b, persist_parse (persist_print b) = Ok b.
+Proof. exact Proof.C39_meta.persist_roundtrip. Qed.
+Print Assumptions C39_persist_roundtrip.
+Theorem C39_persist_accepts_wellformed_only : forall s b,
+  persist_parse s = Ok b <-> In s (if b then true_spellings else false_spellings).
+Proof. exact Proof.C39_meta.persist_accepts. Qed.
+Print Assumptions C39_persist_accepts_wellformed_only.
+Theorem C39_persist_rejects : forall s,
+  persist_parse s = Err <-> (~ In s true_spellings /\ ~ In s false_spellings).
+Proof. exact Proof.C39_meta.persist_rejects. Qed.
+Print Assumptions C39_persist_rejects.
+
+(* ---------------- handshake bitfields (binary form of a bit set) ---------------- *)
+
+Theorem C39_bitfield_roundtrip : forall b, bs_wfb b = true -> bitset_parse (bitset_print b) = Ok b.
+Proof. exact Proof.C39_bits.bitset_roundtrip. Qed.
+Print Assumptions C39_bitfield_roundtrip.
+Theorem C39_bitfield_accepts_wellformed_only : forall d, (exists b, bitset_parse d = Ok b) <-> input_wfb CBits d = true.
+Proof. exact Proof.C39_bits.bitset_accepts. Qed.
+Print Assumptions C39_bitfield_accepts_wellformed_only.
+Theorem C39_bitfield_parse_print : forall d b, forallb is_byte d = true -> bitset_parse d = Ok b ->
+  bs_wfb b = true /\ bitset_print b = firstn (8 + 8 * N.to_nat (words_needed (b_len b))) d.
+Proof. exact Proof.C39_bits.bitset_parse_sound. Qed.
+Print Assumptions C39_bitfield_parse_print.
+Theorem C39_bitfield_trailing_ignored : forall b tail, bs_wfb b = true -> bitset_parse (bitset_print b ++ tail) = Ok b.
+Proof. exact Proof.C39_bits.bitset_parse_trailing. Qed.
+Print Assumptions C39_bitfield_trailing_ignored.
+
+(* ---------------- the whole handshake: peer id, digest, info hash, bitfield, remote bitfields -- *)
+
+Theorem C39_handshake_roundtrip : forall h, hs_wfb h = true -> hs_parse true (Some (hs_print h)) = Ok h.
+Proof. exact Proof.C39_hs.hs_roundtrip. Qed.
+Print Assumptions C39_handshake_roundtrip.
+Theorem C39_handshake_accepts_wellformed_only : forall isb body,
+  (exists h, hs_parse isb body = Ok h) <->
+  (isb = true /\ exists m, body = Some m /\ hmsg_text_wfb m = true).
+Proof. exact Proof.C39_hs.hs_accepts. Qed.
+Print Assumptions C39_handshake_accepts_wellformed_only.
+Theorem C39_handshake_parse_print : forall isb m h, body_bytes (Some m) = true -> hs_parse isb (Some m) = Ok h ->
+  hs_parse true (Some (hs_print h)) = Ok h.
+Proof. exact Proof.C39_hs.hs_parse_print. Qed.
+Print Assumptions C39_handshake_parse_print.
+Theorem C39_handshake_keys_distinct : forall p q, id20_wfb p = true -> id20_wfb q = true ->
+  peerid_print p = peerid_print q -> p = q.
+Proof. exact Proof.C39_hs.hs_print_keys_distinct. Qed.
+Print Assumptions C39_handshake_keys_distinct.
+
+(* ---------------- executable form, used on the implementation's observations ---------------- *)
+
+Theorem C39_check_sound : forall c, case_bytes c = true -> C39_check (model_case c) = true.
+Proof. exact Proof.C39.check_sound. Qed.
+Print Assumptions C39_check_sound.
+
+(* the literals of the model are the literals of the source (regenerated on every run) *)
+Theorem C39_consts_match :
+  K.Gen.C39_consts.digest_algo_name = sha256_str /\
+  K.Gen.C39_consts.digest_split_sep = [colon] /\
+  K.Gen.C39_consts.digest_raw_format = [37; 115; colon; 37; 115] /\
+  K.Gen.C39_consts.piece_status_empty = Z.of_N st_empty /\
+  K.Gen.C39_consts.piece_status_complete = Z.of_N st_complete /\
+  K.Gen.C39_consts.piece_status_dirty = Z.of_N st_dirty.
+Proof. exact Proof.C39.consts_match. Qed.
+Print Assumptions C39_consts_match.
+
+(* ---------------- non-vacuity ---------------- *)
+
+Example C39_nonvacuous_digest :
+  digest_text_wfb (sha256_str ++ colon :: repeat 97 64) = true /\
+  digest_parse (sha256_str ++ colon :: repeat 97 64)
+    = Ok (mkd sha256_str (repeat 97 64) (sha256_str ++ colon :: repeat 97 64)) /\
+  dg_wfb (mkd sha256_str (repeat 70 64) (sha256_str ++ colon :: repeat 70 64)) = true /\
+  digest_parse (sha256_str ++ colon :: repeat 97 63) = Err /\
+  digest_parse (sha256_str ++ colon :: repeat 103 64) = Err.
+Proof. vm_compute. repeat split; reflexivity. Qed.
+
+Example C39_nonvacuous_digestlist :
+  dl_parse (dl_print (Some [mkd sha256_str (repeat 97 64) (sha256_str ++ colon :: repeat 97 64);
+                            mkd sha256_str (repeat 48 64) (sha256_str ++ colon :: repeat 48 64)]))
+  = Ok (Some [mkd sha256_str (repeat 97 64) (sha256_str ++ colon :: repeat 97 64);
+              mkd sha256_str (repeat 48 64) (sha256_str ++ colon :: repeat 48 64)]) /\
+  dl_parse (dl_print None) = Ok None /\ dl_parse (dl_print (Some [])) = Ok (Some []) /\
+  dl_parse [91; 110; 117; 108; 108; 93] = Err.          (* [null] *)
+Proof. vm_compute. repeat split; reflexivity. Qed.
+
+Example C39_nonvacuous_ids :
+  id20_wfb (repeat 255 20) = true /\ infohash_parse (repeat 70 40) = Ok (repeat 255 20) /\
+  peerid_parse (repeat 102 40) = Ok (repeat 255 20) /\ peerid_parse (repeat 102 39) = Err.
+Proof. vm_compute. repeat split; reflexivity. Qed.
+
+Example C39_nonvacuous_status :
+  forallb status_persistent [0; 1; 1; 0] = true /\ status_parse (status_print [0; 1; 1; 0]) = [0; 1; 1; 0] /\
+  status_parse (status_print [st_dirty]) = [st_empty] /\ status_parse [7] = [0].
+Proof. vm_compute. repeat split; reflexivity. Qed.
+
+Example C39_nonvacuous_lat :
+  int64b (2 ^ 55) = true /\ int64b (- 2 ^ 63) = true /\ int64b (2 ^ 63 - 1) = true /\
+  lat_print (2 ^ 55) = Ok [128; 128; 128; 128; 128; 128; 128; 128; 1; 0] /\
+  lat_parse [128; 128; 128; 128; 128; 128; 128; 128; 1; 0] = Ok (2 ^ 55)%Z /\
+  lat_print_prefix (2 ^ 55) = Panic /\
+  lat_print_prefix 1600000000 = Ok [128; 192; 240; 245; 11; 0; 0; 0] /\
+  lat_print 1600000000 = Ok [128; 192; 240; 245; 11; 0; 0; 0; 0; 0] /\
+  lat_print (- 2 ^ 63) = Ok [255; 255; 255; 255; 255; 255; 255; 255; 255; 1] /\
+  lat_parse [255; 255; 255; 255; 255; 255; 255; 255; 255; 2] = Err /\ lat_parse [128; 128] = Err.
+Proof. vm_compute. repeat split; reflexivity. Qed.
+
+Example C39_nonvacuous_bitfield :
+  bs_wfb (mkbs 65 [9223372036854775809; 1]) = true /\
+  bitset_print (mkbs 65 [9223372036854775809; 1])
+    = [0; 0; 0; 0; 0; 0; 0; 65; 128; 0; 0; 0; 0; 0; 0; 1; 0; 0; 0; 0; 0; 0; 0; 1] /\
+  bitset_parse [0; 0; 0; 0; 0; 0; 0; 65; 128; 0; 0; 0; 0; 0; 0; 1; 0; 0; 0; 0; 0; 0; 0; 1]
+    = Ok (mkbs 65 [9223372036854775809; 1]) /\
+  bitset_parse [0; 0; 0; 0; 0; 0; 0; 65; 128; 0; 0; 0; 0; 0; 0; 1] = Err /\
+  bitset_parse [255; 255; 255; 255; 255; 255; 255; 255; 0; 0; 0; 0; 0; 0; 0; 1] = Err.
+Proof. vm_compute. repeat split; reflexivity. Qed.
+
+Example C39_nonvacuous_handshake :
+  let d := mkd sha256_str (repeat 97 64) (sha256_str ++ colon :: repeat 97 64) in
+  let h := mkhs (repeat 1 20) d (repeat 2 20) (mkbs 3 [5]) [(repeat 3 20, mkbs 64 [7]); (repeat 4 20, mkbs 0 [])] [110; 115] in
+  hs_wfb h = true /\ nodup_keys (h_rb h) = true /\ hs_parse true (Some (hs_print h)) = Ok h /\
+  body_bytes (Some (hs_print h)) = true /\ hmsg_text_wfb (hs_print h) = true /\
+  hs_parse false (Some (hs_print h)) = Err /\ hs_parse true None = Err.
+Proof. vm_compute. repeat split; reflexivity. Qed.
+
+Example C39_nonvacuous_check :
+  case_bytes (CaseParse CDigest (sha256_str ++ colon :: repeat 97 64) Err Err Err) = true /\
+  C39_check (model_case (CaseParse CDigest (sha256_str ++ colon :: repeat 97 64) Err Err Err)) = true /\
+  (* the oracle is not trivially true: it rejects a lossy round trip, an accepted malformed text,
+     a rejected well-formed text and a panic *)
+  C39_check (CasePrint CLat (VT 5 0) (Ok [10]) (Ok (VT 6 0))) = false /\
+  C39_check (CaseParse CDigest (sha256_str ++ colon :: repeat 97 63)
+               (Ok (VD (mkd sha256_str (repeat 97 63) (sha256_str ++ colon :: repeat 97 63))))
+               (Ok (sha256_str ++ colon :: repeat 97 63))
+               (Ok (VD (mkd sha256_str (repeat 97 63) (sha256_str ++ colon :: repeat 97 63))))) = false /\
+  C39_check (CaseParse CDigest (sha256_str ++ colon :: repeat 97 64) Err Err Err) = false /\
+  C39_check (CasePrint CLat (VT (2 ^ 55) 0) Panic Err) = false.
+Proof. vm_compute. repeat split; reflexivity. Qed.
